@@ -20,11 +20,11 @@ TABLE = {
         'reason': 'u32::try_from(input index): a transaction in a consensus-valid block has far fewer than 2^32 inputs (each at least 41 bytes)'},
     (FI, 'unwrap', 'unwrap(TryInto::try_into(offset))'): {
         'reason': 'u32::try_from(envelope count so far): each envelope needs at least 4 script bytes and a witness script is bounded by the block weight limit'},
-    ('ord::inscriptions::inscription::Inscription::append_reveal_script_to_builder', 'unwrap', 'unwrap(TryInto::try_into(Iterator::next(IntoIterator::into_iter(slice::chunks(tmp,MAX_SCRIPT_ELEMENT_SIZE))).v:Some.0))'): {
+    ('ord::inscriptions::inscription::Inscription::append_reveal_script_to_builder', 'unwrap', 'unwrap(TryInto::try_into(Iterator::next(IntoIterator::into_iter(slice::chunks(Deref::deref(….v:Some.0),MAX_SCRIPT_ELEMENT_SIZE))).v:Some.0))'): {
         'reason': PUSH + '; the chunk comes from chunks(MAX_SCRIPT_ELEMENT_SIZE = 520)'},
-    (PC, 'arith', 'Add(Vec::len(Vec::new()),Try::branch(Result::ok(Read::read(Decompressor::new(value,BROTLI_BUFFER_SIZE),DerefMut::deref_mut(tmp)))).v:Continue.0)'): {
+    (PC, 'arith', 'Add(Vec::len(Vec::new()),Try::branch(Result::ok(Read::read(Decompressor::new(Try::branch(Option::as_deref(…)).v:Continue.0,BROTLI_BUFFER_SIZE),DerefMut::deref_mut(vec::from_elem(0,BROTLI_BUFFER_SIZE))))).v:Continue.0)'): {
         'reason': READ, 'range': (1, ISIZE_MAX), 'requires': READ_REQ},
-    (PC, 'index-call', 'index(vec::from_elem(0,BROTLI_BUFFER_SIZE),RangeTo{Try::branch(Result::ok(Read::read(Decompressor::new(tmp,BROTLI_BUFFER_SIZE),DerefMut::deref_mut(tmp)))).v:Continue.0})'): {
+    (PC, 'index-call', 'index(vec::from_elem(0,BROTLI_BUFFER_SIZE),RangeTo{Try::branch(Result::ok(Read::read(Decompressor::new(Try::branch(…).v:Continue.0,BROTLI_BUFFER_SIZE),DerefMut::deref_mut(vec::from_elem(…,…))))).v:Continue.0})'): {
         'reason': READ, 'requires': READ_REQ},
     ('ord::inscriptions::inscription_id::InscriptionId::from_value', 'unwrap', 'unwrap(Hash::from_slice(slice::split_at(value,LEN).0))'): {
         'reason': 'Txid::from_slice fails only on a length other than 32; the slice is the first half of split_at(Txid::LEN = 32)',
@@ -35,14 +35,14 @@ TABLE = {
     (IDV, 'index-call', 'index(index_slice,Range{0,Sub(slice::len(index_slice),1)})'): {
         'reason': '0 <= len - 1 <= len', 'requires': [r'^Eq\(Option::copied\(slice::last\(index_slice\)\),.*\)==True$']},
     ('ord::inscriptions::tag::Tag::append', 'unwrap', 'unwrap(TryInto::try_into(array::as_slice(Tag::bytes(self))))'): {'reason': PUSH + '; a one-byte array'},
-    ('ord::inscriptions::tag::Tag::append', 'unwrap', 'unwrap(TryInto::try_into(Iterator::next(IntoIterator::into_iter(slice::chunks(tmp,MAX_SCRIPT_ELEMENT_SIZE))).v:Some.0))'): {
+    ('ord::inscriptions::tag::Tag::append', 'unwrap', 'unwrap(TryInto::try_into(Iterator::next(IntoIterator::into_iter(slice::chunks(Deref::deref(value.v:Some.0),MAX_SCRIPT_ELEMENT_SIZE))).v:Some.0))'): {
         'reason': PUSH + '; a chunk of at most 520 bytes'},
     ('ord::inscriptions::tag::Tag::append', 'unwrap', 'unwrap(TryInto::try_into(Vec::as_slice(value.v:Some.0)))'): {
         'reason': PUSH + '; field values are in-memory vectors built by the wallet (content type, pointer, delegate ids ...), far below 4 GiB'},
     ('ord::inscriptions::tag::Tag::append_array', 'unwrap', 'unwrap(TryInto::try_into(array::as_slice(Tag::bytes(self))))'): {'reason': PUSH + '; a one-byte array'},
-    ('ord::inscriptions::tag::Tag::append_array', 'unwrap', 'unwrap(TryInto::try_into(Vec::as_slice(Iterator::next(tmp).v:Some.0)))'): {
+    ('ord::inscriptions::tag::Tag::append_array', 'unwrap', 'unwrap(TryInto::try_into(Vec::as_slice(Iterator::next(IntoIterator::into_iter(values)).v:Some.0)))'): {
         'reason': PUSH + '; parent ids are at most 36 bytes'},
-    ('ord::properties::Properties::from_cbor', 'unwrap', 'unwrap(Hash::from_slice(Iterator::next(IntoIterator::into_iter(tmp)).v:Some.0.1))'): {
+    ('ord::properties::Properties::from_cbor', 'unwrap', 'unwrap(Hash::from_slice(Iterator::next(IntoIterator::into_iter(Iterator::zip(slice::iter_mut(DerefMut::deref_mut(…)),slice::as_chunks(Deref::deref(…)).0))).v:Some.0.1))'): {
         'reason': 'the element comes from as_chunks::<32>() and is exactly 32 bytes long, the only length Txid::from_slice accepts',
         'requires': [r'slice::as_chunks']},
 }
